@@ -396,6 +396,15 @@ class CancelScope(AbstractCancelScope):
         return task_cancel_handle
 
     @classmethod
+    def _is_task_polling(cls, task: asyncio.Task[Any]) -> bool:
+        for scope in cls._inner_to_outer_task_scopes(task):
+            if scope.__cancel_called:
+                # No cancellation has been requested since the scope was entered
+                # (the counter may be above zero for another reason, e.g. clean-up code of a cancelled task).
+                return task.cancelling() <= scope.__host_task_cancelling
+        return False
+
+    @classmethod
     def _check_pending_cancellation(cls, host_task: asyncio.Task[Any]) -> None:
         for parent_scope in cls._inner_to_outer_task_scopes(host_task):
             if parent_scope.__cancel_called:
@@ -437,10 +446,7 @@ class TaskUtils:
         Returns True if the current task is within a cancel scope which is cancelled, but no cancellation has been requested yet.
         i.e. the scope was already cancelled when the task got there, for instance ``with backend.timeout(0):``.
         """
-        task = TaskUtils.current_asyncio_task(loop)
-        if task.cancelling() > 0:
-            return False
-        return any(scope.cancel_called() for scope in CancelScope._inner_to_outer_task_scopes(task))
+        return CancelScope._is_task_polling(TaskUtils.current_asyncio_task(loop))
 
     @staticmethod
     def current_asyncio_task(loop: asyncio.AbstractEventLoop | None = None) -> asyncio.Task[Any]:
